@@ -139,6 +139,7 @@ def run_pair(prog, na, nb):
     out = {"pair": [na, nb], "states": 0, "queries": 0, "solver_s": 0.0, "obligations": 0, "discharged": 0,
            "cex": [], "gaps": {}, "inconclusive": [], "stubs": []}
     eng = H.new_engine(prog, loop_bound=64)
+    _c0 = H.cross_begin()
     ida = idb = None
 
     def check(res, cond, what, expect):
@@ -151,6 +152,8 @@ def run_pair(prog, na, nb):
         t = time.time()
         r = s.check()
         out["solver_s"] += time.time() - t
+        if not H.cross_check(s, r, what if "what" in dir() else ""):
+            out["inconclusive"].append("second solver disagrees: %s" % H.CROSS["disagree"][-1])
         out["queries"] += 1
         if r == z3.unsat:
             out["discharged"] += 1
@@ -210,6 +213,7 @@ def run_pair(prog, na, nb):
     out["solver_s"] += st.solver_s
     out["blocks"] = {prog.pretty(k[1]): len(v) for k, v in st.blocks_hit.items()}
     out["stubs"] = sorted(set(c.split("::<")[0][:80] for c in st.calls_modelled))
+    out["cross"] = H.cross_end(_c0)
     return out
 
 
@@ -250,6 +254,7 @@ def run(tier, regenerate=True):
         if isinstance(out, Exception) or out is None:
             chk.inconclusive.append("worker failed: %r" % (out,))
             continue
+        chk.add_cross(out)
         chk.states += out["states"]
         chk.transitions += out["queries"]
         chk.solver_s += out["solver_s"]
